@@ -85,6 +85,8 @@ STATEMENT_STATUS: Dict[str, str] = {
     "length_direct_indirect/length_resolve_fuel/stream_read_indirect": "proved: int_value(dic['Length']) is the same for an "
         "integer and for a reference to an object holding it; unresolvable / cyclic / non-integer give 0, a missing key none; "
         "the resolution fuel suffices; stream_read_exact with an indirect Length",
+    "stream_keys_rt": "proved: the chain theorem through the stream dictionary - Filter or F, DecodeParms or DP or FDecodeParms "
+        "(translated key tuples)",
     "file_chain_rt": "proved: the property in one statement - file bytes -> stream branch (Length = |z|) -> PDFStream.decode "
         "of a chain of any length gives exactly the payload",
     "predictor_translated": "proved: the model's predictor dispatch = the translated `pred == 1 / == 2 / >= 10 / else` chain of "
@@ -1120,6 +1122,57 @@ def gen_lenval(rng):
     return objs, v
 
 
+def check_getfilters(ctx, batch, fattrs, pattrs) -> None:
+    """(tie) `streamFilters` == `PDFStream.get_filters()` on stream dictionaries with any subset of the keys
+    F / Filter / DP / DecodeParms / FDecodeParms (+ unrelated keys): which key wins, name vs array, dict vs array."""
+    from pdfminer.pdftypes import PDFStream
+    from pdfminer.psparser import LIT, literal_name
+
+    def fval(v):
+        return LIT(v) if isinstance(v, str) else [LIT(x) for x in v]
+
+    def pval(v):
+        return v
+    attrs: Dict[str, Any] = {}
+    for k, v in fattrs:
+        attrs[k] = fval(v)
+    for k, v in pattrs:
+        attrs[k] = pval(v)
+    try:
+        r = PDFStream(attrs, b"").get_filters()
+        got = ",".join(hx(literal_name(f).encode("latin-1")) + "/" + (dspec(pp) if pp else "Z") for f, pp in r) or "[]"
+    except Exception as e:  # noqa: BLE001
+        got = "E " + type(e).__name__
+    fa = ";".join(k.encode().hex() + "=" + fspec(v) for k, v in fattrs) or "-"
+    pa = ";".join(k.encode().hex() + "=" + pspec(v) for k, v in pattrs) or "-"
+    line = f"getfilters {fa} {pa}"
+    batch.add(line, got, {"op": "getfilters"})
+    ctx.case(("getfilters", line), True, sample={"op": "getfilters", "line": line[:100]},
+             branch="getfilters:f=%s:p=%s" % ("+".join(k for k, _ in fattrs) or "none", "+".join(k for k, _ in pattrs) or "none"))
+
+
+def gen_getfilters(rng):
+    names = ["FlateDecode", "Fl", "AHx", "LZW", "N1", "N2"]
+
+    def fv():
+        return rng.choice(names) if rng.random() < 0.4 else [rng.choice(names) for _ in range(rng.randint(1, 3))]
+
+    def dct():
+        d = {}
+        for k, vals in (("Predictor", [1, 2, 12]), ("Colors", [1, 3]), ("Columns", [1, 5]), ("BitsPerComponent", [8, 1])):
+            if rng.random() < 0.5:
+                d[k] = rng.choice(vals)
+        return d or {"Predictor": 1}
+
+    def pv():
+        return dct() if rng.random() < 0.4 else [rng.choice([dct(), dct(), None]) for _ in range(rng.randint(1, 3))]
+    fkeys = [k for k in ("Filter", "F") if rng.random() < 0.55]
+    pkeys = [k for k in ("FDecodeParms", "DecodeParms", "DP") if rng.random() < 0.45]
+    rng.shuffle(fkeys)
+    rng.shuffle(pkeys)
+    return [(k, fv()) for k in fkeys], [(k, pv()) for k in pkeys]
+
+
 def gen_streamx(rng, domain: bool):
     payload = gen_payload(rng, 60)
     if domain or rng.random() < 0.5:
@@ -1298,6 +1351,10 @@ def run_chains(ctx) -> None:
             got = "E " + type(e).__name__
         batch.add(f"stream {spos} {ln} {hx(buf)}", got, {"op": "stream-wild"})
         ctx.case(("streamwild", buf, ln), True, branch="streamwild:" + (got[2:] if got.startswith("E") else "ok"))
+    batch.flush()
+    # round 6: which dictionary keys get_filters reads (F / Filter, DP / DecodeParms / FDecodeParms)
+    for i in range(ctx.n(300, 4000)):
+        check_getfilters(ctx, batch, *gen_getfilters(rng))
     batch.flush()
     # round 6: int_value(dic["Length"]) - direct / indirect / missing
     for i in range(ctx.n(400, 5000)):
